@@ -305,7 +305,9 @@ func (s *sweeper) run() sweepSummary {
 		}
 	}
 	// far above the threshold, and integer edge cases of the limit
-	for _, m := range []uint64{2 * tb, 3*tb + 1, 1 << 16, 1 << 20, 1<<31 - 1, 1 << 32, 1<<63 - 1, 1 << 63, ^uint64(0)} {
+	// (limits >= 2^63 cannot be expressed from Lua and ctx.kill.memory shows them
+	// as negative numbers: truthful reporting is C07's subject, not used here)
+	for _, m := range []uint64{2 * tb, 3*tb + 1, 1 << 16, 1 << 20, 1<<31 - 1, 1 << 32, 1 << 53, 1<<63 - 1} {
 		if s.crashes <= s.maxCrashes {
 			s.at(m)
 		}
